@@ -397,10 +397,22 @@ func (fsdb *FsDb) importCertConfigFile(certContent config.CertificateContent, co
 	}
 
 	if !alreadyExists {
-		fsdb.configs[certContent.Alias] = &certContent
+		//two config files next to each other that only differ in their suffix would
+		//overwrite each other's certificates
 		meta = &fsMetadata{
 			configFileName: configPath,
 		}
+		for otherAlias, otherMeta := range fsdb.fsMetadata {
+			if otherMeta.artifactFileName() == meta.artifactFileName() {
+				logging.Errorf("%s and %s would both be stored in %s",
+					otherMeta.configFileName, configPath, meta.artifactFileName())
+
+				return fmt.Errorf("artifact file exists multiple times: %s (aliases %s and %s). ",
+					meta.artifactFileName(), otherAlias, certContent.Alias)
+			}
+		}
+
+		fsdb.configs[certContent.Alias] = &certContent
 		fsdb.fsMetadata[certContent.Alias] = meta
 		fsdb.artifacts[certContent.Alias] = &db.BuildArtifact{}
 	}
